@@ -204,10 +204,13 @@ Record pend := { p_key : kref; p_val : bytes; p_t : N }.
 Record fixes := {
   fx_copy_key : bool;       (* _kvs[..].K receives a copy of the key *)
   fx_own_txid : bool;       (* the tombstone lookup uses txID+i, not txID *)
-  fx_tomb_deleted : bool    (* the tombstone is marked deleted also when the replaced entry has metadata *)
+  fx_tomb_deleted : bool;   (* the tombstone is marked deleted also when the replaced entry has metadata *)
+  fx_kvs_cap : bool         (* _kvs has room for two items (entry + tombstone) per transaction entry *)
 }.
-Definition cur_code : fixes := {| fx_copy_key := false; fx_own_txid := false; fx_tomb_deleted := false |}.
-Definition all_fixed : fixes := {| fx_copy_key := true; fx_own_txid := true; fx_tomb_deleted := true |}.
+Definition cur_code : fixes :=
+  {| fx_copy_key := false; fx_own_txid := false; fx_tomb_deleted := false; fx_kvs_cap := false |}.
+Definition all_fixed : fixes :=
+  {| fx_copy_key := true; fx_own_txid := true; fx_tomb_deleted := true; fx_kvs_cap := true |}.
 
 Definition nth_tx (h : history) (id : N) : option tx :=
   if id =? 0 then None else nth_error h (N.to_nat (id - 1)).
@@ -289,8 +292,9 @@ Fixpoint index_entries (fx : fixes) (s : ispec) (h : history) (tb : tbt)
       Ok (a ++ b)
   end.
 
-(* the loop `for i := 0; i < bulk; i++` *)
-Fixpoint index_txs (fx : fixes) (s : ispec) (h : history) (tb : tbt) (txID : N)
+(* the loop `for i := 0; i < bulk; i++`; idx._kvs has `cap` pre-allocated slots (newIndexer:
+   maxTxEntries * MaxBulkSize): writing past them is a Go runtime panic (index out of range) *)
+Fixpoint index_txs (fx : fixes) (s : ispec) (h : history) (tb : tbt) (txID : N) (cap : nat)
          (n : nat) (i : N) (hd : holder) (acc : list pend) : res (holder * list pend) :=
   match n with
   | O => Ok (hd, acc)
@@ -300,7 +304,8 @@ Fixpoint index_txs (fx : fixes) (s : ispec) (h : history) (tb : tbt) (txID : N)
       | Some t =>
           let hd' := read_tx_keys hd (map e_key (t_entries t)) in
           do ps <- index_entries fx s h tb txID i t O (t_entries t);
-          index_txs fx s h tb txID n' (i + 1) hd' (acc ++ ps)
+          if (cap <? length (acc ++ ps))%nat then Panic else
+          index_txs fx s h tb txID cap n' (i + 1) hd' (acc ++ ps)
       end
   end.
 
@@ -311,26 +316,34 @@ Definition istate_init : istate := {| is_tb := tbt_empty; is_hd := [] |}.
 Definition max_ival : N :=
   st_lszSize + st_offsetSize + hsize + st_sszSize + st_maxTxMetadataLen + st_sszSize + st_maxKVMetadataLen.
 
-Definition index_since (fx : fixes) (s : ispec) (maxk : N) (h : history) (st : istate) (bulk : nat) : res istate :=
+(* store limits: maximum key length, maximum number of entries of a transaction *)
+Record limits := { maxk : N; maxtx : N }.
+
+(* newIndexer pre-allocates maxTxEntries * MaxBulkSize items *)
+Definition kvs_cap (fx : fixes) (lim : limits) (maxbulk : nat) : nat :=
+  ((if fx_kvs_cap fx then 2 else 1) * N.to_nat (maxtx lim) * maxbulk)%nat.
+
+(* one call of indexSince that accumulates `bulk` <= `maxbulk` = MaxBulkSize transactions *)
+Definition index_since (fx : fixes) (s : ispec) (lim : limits) (h : history) (st : istate) (maxbulk bulk : nat) : res istate :=
   if Nat.eqb bulk 0 then Err EIllegalArguments else
   let txID := tb_ts (is_tb st) + 1 in
-  do r <- index_txs fx s h (is_tb st) txID bulk 0 (is_hd st) [];
+  do r <- index_txs fx s h (is_tb st) txID (kvs_cap fx lim maxbulk) bulk 0 (is_hd st) [];
   let '(hd, ps) := r in
   do tb' <- (if is_nil ps then increase_ts (is_tb st) (txID + N.of_nat bulk - 1)
-             else bulk_insert maxk max_ival (is_tb st)
+             else bulk_insert (maxk lim) max_ival (is_tb st)
                     (map (fun p => {| K := resolve hd (p_key p); V := p_val p; T := p_t p |}) ps));
   Ok {| is_tb := tb'; is_hd := hd |}.
 
 (* doIndexing: repeated indexSince(Ts+1); the k-th call accumulates min(ks[k], what is committed)
    transactions; stops when everything is indexed *)
-Fixpoint run (fx : fixes) (s : ispec) (maxk : N) (h : history) (ks : list nat) (st : istate) : res istate :=
+Fixpoint run (fx : fixes) (s : ispec) (lim : limits) (h : history) (ks : list nat) (st : istate) : res istate :=
   match ks with
   | [] => Ok st
   | k :: ks' =>
       let avail := (length h - N.to_nat (tb_ts (is_tb st)))%nat in
       if Nat.eqb avail 0 then Ok st else
-      do st' <- index_since fx s maxk h st (Nat.min k avail);
-      run fx s maxk h ks' st'
+      do st' <- index_since fx s lim h st k (Nat.min k avail);
+      run fx s lim h ks' st'
   end.
 
 (* ------------------------------------------------------------------ *)
@@ -438,3 +451,10 @@ Definition vref_of (x : hit) : vref :=
   let v := fst x in
   {| r_tx := v_tx v; r_hc := snd x; r_vlen := len (e_val (v_e v)); r_voff := e_voff (v_e v);
      r_hval := e_hval (v_e v); r_txmd := v_txmd v; r_kvmd := v_md v |}.
+
+(* the abstract index as the tree holds it: every version as (transaction id, serialised value) *)
+Definition ser_index (ix : index) : mvmap :=
+  map (fun kv => (fst kv, map (fun v => (v_tx v, ser_ver v)) (snd kv))) ix.
+
+Definition rmap {A B} (f : A -> B) (r : res A) : res B :=
+  match r with Ok a => Ok (f a) | Err e => Err e | Panic => Panic end.
